@@ -48,6 +48,7 @@ def run(ctx):
   slice_back(ctx)
   sharded_init_pads(ctx)
   axis_names(ctx)
+  vmapped_roots(ctx)
   from . import C07
   C07.squeeze_lint(ctx)
 
@@ -668,6 +669,82 @@ def batch_unbatch(ctx):
   ok1 = r.op == 'list' and len(r.args) == 1 and r.args[0].op == 'star' and len({y for y in walk(r) if is_ext_call(y, 'jax.numpy.split')}) == 1
   ctx.ob('C13.P3', fu.short, 'b2 == 1: one result per outer piece', ok1, 'with one statistic per device each outer piece is one result', ctx.loc(fu),
          sample='append(squeeze(outer piece))')
+
+
+def vmapped_roots(ctx):
+  """P7: the two per-device helpers (`_matrix_inverse_pth_root_vmap`, `_quantized_matrix_inverse_pth_root_vmap`) run
+  the root routine under jax.vmap with EVERY per-statistic operand mapped along axis 0 and handed over whole: the
+  operand is the helper's own parameter (not an element or a slice of it), and no `in_axes` entry is None.  (An
+  exponent or padding start taken from the first statistic of the batch is right exactly when a device holds one
+  statistic or all of its statistics agree - so the result depends on how many devices the statistics are dealt to.)
+  The helper returns that batched result for every batch; the only shortcut accepted is the all-padding one keyed on
+  the FIRST padding start (pads are appended after the real statistics: the first entry is padding iff all are)."""
+  m = ctx.model
+  n_sites = 0
+  for q in ('_matrix_inverse_pth_root_vmap', '_quantized_matrix_inverse_pth_root_vmap'):
+    fi = m.func(MOD, F + '.' + q)
+    ctx.analysed(fi)
+    ev = evaluator(m, opaque={'small_mi_pth_root', 'new_mi_pth_root', 'from_float_value', 'to_float'})
+    r = ev.run(fi)
+    ctx.evaluations += 1
+    params = {sym('param', fi.short, a.arg): a.arg for a in fi.node.args.args}
+    log = [v for v in ev.vmap_log if v[3].endswith(q)]
+    if len(log) != 1:
+      raise AnalysisError(f'{q}: expected exactly one call under jax.vmap, found {len(log)}')
+    wrapper, vargs, res, _, vkw = log[0]
+    n_sites += 1
+    kw = dict(wrapper.args[1])
+    ia = kw.get('in_axes')
+    if ia is None or is_const(ia, 0):
+      bad_axes = []
+    elif ia.op in ('tuple', 'list'):
+      bad_axes = [i for i, a in enumerate(ia.args) if not is_const(a, 0)]
+    else:
+      bad_axes = ['?']
+    ctx.ob('C13.P7', fi.short, 'every operand of the vmapped root routine is mapped along axis 0', not bad_axes,
+           f'in_axes of the jax.vmap around the root routine must map every operand along axis 0 (each statistic has its own exponent, padding start and previous root); '
+           f'positions {bad_axes} are not 0 in `{show(ia or NONE, maxdepth=3)}`', ctx.loc(fi), sample='jax.vmap(f)(xs, ps, ...) [in_axes default 0]')
+    oa = kw.get('out_axes')
+    ctx.ob('C13.P7', fi.short, 'results are stacked along axis 0', oa is None or is_const(oa, 0),
+           f'out_axes of the jax.vmap around the root routine must be 0 (unbatch splits axis 0); got `{show(oa or NONE, maxdepth=3)}`', ctx.loc(fi), sample='out_axes default 0')
+    operands = [(f'#{i}', a) for i, a in enumerate(vargs)] + [(k, a) for k, a in vkw]
+    seen = set()
+    for nm, a in operands:
+      whole = a in params or is_const(a, None)
+      if a in params:
+        seen.add(params[a])
+      ctx.ob('C13.P7', fi.short, f'operand {nm} is a whole parameter of the helper', whole,
+             f'operand {nm} of the vmapped root routine must be one of the helper\'s per-statistic arrays handed over whole; got `{show(a, maxdepth=4)[:120]}` '
+             f'(an element or slice of it gives every statistic of the batch the same value)', ctx.loc(fi), sample='xs, ps, padding_starts, prev')
+    missing = [p_ for p_ in params.values() if p_ not in seen]
+    ctx.ob('C13.P7', fi.short, 'every parameter of the helper reaches the root routine', not missing,
+           f'parameters {missing} of {q} are not handed to the vmapped root routine', ctx.loc(fi), sample='all of xs, ps, padding_starts, prev')
+    # the value returned
+    leaves = _ite_leaves_c(r, stop=res)
+    ok = True
+    why = ''
+    for conds, leaf in leaves:
+      if leaf is res:
+        continue
+      ps_ok = False
+      if len(conds) >= 1:
+        c, pol = conds[-1]
+        PS = [t for t, nm_ in params.items() if nm_ == 'padding_starts']
+        if pol and c.op == 'cmp' and c.args[0] == '==' and is_const(c.args[2], 0) and c.args[1].op == 'sub' and PS and c.args[1].args[0] is PS[0] and is_const(c.args[1].args[1], 0):
+          ps_ok = any(is_ext_call(y, 'jax.numpy.zeros') or is_ext_call(y, 'jax.numpy.zeros_like') for y in walk(leaf))
+      if not ps_ok:
+        ok = False
+        why = f'returns `{show(leaf, maxdepth=3)[:100]}` under `{show(conds[-1][0], maxdepth=4)[:100] if conds else "always"}`'
+    ctx.ob('C13.P7', fi.short, 'the helper returns the batched roots for every batch', ok,
+           f'{q} must return the vmapped root computation itself (a shortcut that answers for the whole batch from one entry other than the first padding start '
+           f'drops the real statistics that share a device with padding); {why}', ctx.loc(fi), sample='return jax.vmap(...)(...)')
+  ctx.need('C13.P7', n_sites, 2, 'vmapped root helpers')
+
+
+def _ite_leaves_c(t, conds=(), stop=None):
+  if t.op in ('ite', 'cond') and t is not stop:
+    return _ite_leaves_c(t.args[1], conds + ((t.args[0], True),), stop) + _ite_leaves_c(t.args[2], conds + ((t.args[0], False),), stop)
+  return [(conds, t)]
 
 
 def _ite_leaves(t):
